@@ -201,6 +201,17 @@ Theorem C17_casemap_refuted :
   firstn 5 (skipn 6 line_cm2) = s "march".
 Proof. exact casemap_misplaced. Qed.
 
+(* ... and well-formedness itself: `est = 5` then `ıııııKKK7𠀀 est may` (K = KELVIN SIGN) reports the EMPTY
+   span (9, 9, VariableUse): update_tokens is called with the zone token's offsets in the upper-cased
+   copy, both of which fall into the 4-byte character 9 of the line (the excluded case of C17_update_wf) *)
+Theorem C17_pipeline_refuted :
+  ui_of_text (s "en") (s "est = 5" ++ [10%N] ++ line_em)
+    = Some [[tk 0 3 UVariableDefination; tk 4 5 UOperator; tk 6 7 UNumber];
+            [tk 0 8 UText; tk 8 9 UNumber; tk 9 9 UVariableUse; tk 9 12 UMonth; tk 15 18 UText]] /\
+  ~ WF line_em [tk 0 8 UText; tk 8 9 UNumber; tk 9 9 UVariableUse; tk 9 12 UMonth; tk 15 18 UText] /\
+  get_position line_em 20 = 9 /\ get_position line_em 23 = 9.
+Proof. exact pipeline_empty_span. Qed.
+
 Print Assumptions C17_get_position_char.
 Print Assumptions C17_get_position_inside.
 Print Assumptions C17_get_position_range.
@@ -222,3 +233,4 @@ Print Assumptions C17_execute_text_in_line.
 Print Assumptions C17_examples.
 Print Assumptions C17_examples_wf.
 Print Assumptions C17_casemap_refuted.
+Print Assumptions C17_pipeline_refuted.
